@@ -74,7 +74,9 @@ func VerifC04TwoSends() {
 
 // VerifC04Hook: the post-transaction hook turns PacketSent logs of the packet contract into sends and fails the
 // transaction if any of them fails; logs of other addresses or other events cause nothing.
-func VerifC04Hook() {
+func VerifC04Hook() { c04Hook() }
+
+func c04Hook() {
 	w := newWorld(1)
 	n := rt.IntRange("nlogs", 0, 2+rt.Tier())
 	receipt := &ethtypes.Receipt{}
